@@ -49,7 +49,7 @@ def private_uvmodel(ctx):
     """copy of the driver executable taken under the Lean lock right after the build:
     other builders relink lean/.lake/build/bin/uvmodel while this check is still running"""
     global _UVMODEL
-    src = os.path.join(C.LEAN, ".lake", "build", "bin", "uvmodel")
+    src = C.uvmodel_path()
     dst = os.path.join(ctx.scratch, "uvmodel")
     with C.LeanLock():
         shutil.copy2(src, dst)
